@@ -18,39 +18,57 @@ from pathlib import Path
 from vp.core import Check, Failure, ImplTimeout, quiet_logging, with_timeout
 
 META = dict(
-    level_text="Lean 4 theorems over the tag/report model plus a call-site table regenerated from the source on every "
-               "run: every call of set_value / set_value_and_unit / simulate_value / simulate_value_and_unit in "
-               "tags.py, tags_impl.py, pinterpreter.py, engine.py, internal_commands_impl.py, archiver.py, "
-               "hardware_recovery.py passes the tick's time (tick_time parameter or a _tick_time field, which are "
-               "only assigned from the tick's parameter), the wall clock (pinned list of 12 handlers that are not given "
-               "a tick time) or forwards its argument; none passes a tick number. Generic theorems (all operation "
-               "sequences, all tick sequences): a tag whose value was set in a tick carries that tick's time in the "
-               "next report; per tag reported times never decrease; every reported time lies between engine start and "
-               "the current tick. The model is tied to the real classes by replaying recorded traces of real engine "
-               "runs (with the time arguments actually passed) and by unit operation sequences.",
-    level_note="Model follows the code repaired by fixes/C16-block-and-simulate-pass-tick-time.diff (Block tag, 3 sites, "
-               "and simulate_value, 1 site, passed the tick *number* as time) and fixes/C36-…diff (clock tags now stamp "
-               "through set_value): on a tree without these repairs this check reports a violation. Assumption: a "
-               "wall clock read inside a tick equals the tick time (exact under the harness' virtual clock; in "
-               "production such a stamp is later by the tick's own compute time) — the 12 wall-clock sites are pinned by "
-               "a theorem, and runs with a clock that advances inside the tick check that only the tags of those sites "
-               "deviate. Trusted: Lean kernel, harness (trace recorder), AST translator (syntactic classes). "
-               "Initial values carry the construction time, taken as engine start. DerivedTag not modelled.",
-    technique="Lean 4 proof (stamp invariants over operation/tick sequences) + translated call-site table "
-              "(decide +kernel) + trace correspondence + engine-level oracle",
+    level_text="Lean 4 theorems over the tag/report model plus tables regenerated from the source on every run. "
+               "(1) The time argument is DERIVED, not assumed: every call of set_value / set_value_and_unit / "
+               "simulate_value / simulate_value_and_unit (56 sites in tags.py, tags_impl.py, pinterpreter.py, engine.py, "
+               "internal_commands_impl.py, archiver.py, hardware_recovery.py) is translated together with the expression "
+               "it passes as time (tick_time parameter, Engine._tick_time, PInterpreter._tick_time, wall clock, forwarded "
+               "argument); Engine.tick and PInterpreter.tick_iterate_subticks are translated into statement lists; the "
+               "model evaluates a site's expression in the environment those statements produce at the phase in which "
+               "the site runs. Theorems: the field assignment precedes every call that can reach a tag "
+               "(engine_tick_assigns_before_use, generic soundness lemma advance_fresh), the interpreter assigns its "
+               "field first, tick times are only handed down as the caller's own parameter, hence at every phase "
+               "parameter, fields and wall clock read the tick's time (phase_env_fresh, interp_env_fresh) and every "
+               "site's operation is okAt t (site_time_is_tick_time). (2) Generic theorems (all operation / tick "
+               "sequences): a tag whose value was set in a tick carries that tick's time in the next report; reported "
+               "times never decrease; every reported time lies in [engine start, current tick]. Tie: recorded traces of "
+               "real engine runs are replayed WITHOUT their time arguments (tick start, phases, call sites); the model's "
+               "derived time is compared with the time the code actually passed, and every report is compared.",
+    level_note="Model follows the repaired code (commits ca093363 / 8b42f9d0). Assumption: a wall clock read inside a tick "
+               "equals the tick time (exact under the harness' virtual clock; in production later by the tick's compute "
+               "time) - the 12 wall-clock sites are pinned by a theorem, and runs with a clock that advances inside the "
+               "tick check that only the tags of those sites deviate. The oracle is two-sided and exact: runs are "
+               "observed call by call, a reported time must equal the time of the tick of the last call that changed the "
+               "tag (only exception: the engine's stamp of all system tags in its first tick); after stop_simulation the "
+               "time of the last change of either the real or the simulated value is accepted. Call sites are matched "
+               "by file and line of the outermost non-wrapper caller. Trusted: Lean kernel, harness (recorder), AST "
+               "translator. DerivedTag not modelled; initial values carry the construction time (= engine start).",
+    technique="Lean 4 proof (time argument derived from translated tick structure; stamp invariants over operation / "
+              "tick sequences) + translated tables (decide +kernel) + trace correspondence without time arguments + "
+              "exact two-sided engine-level oracle",
 )
 MODULE = "OPM.Properties.C16"
 REQUIRED = ["OPM.C16.sites_pass_tick_time", "OPM.C16.wall_clock_sites_pinned", "OPM.C16.tick_time_fields_hold_the_tick_time",
             "OPM.C16.every_site_passes_the_tick_time", "OPM.C16.changed_value_carries_tick_time",
             "OPM.C16.reported_change_carries_tick_time", "OPM.C16.reported_times_within_start_now",
             "OPM.C16.reported_times_monotone", "OPM.C16.blockTime_passes_event_time",
-            "OPM.C16.scopeTime_passes_event_time", "OPM.C16.engine_tick_ops_pass_tick_time"]
+            "OPM.C16.scopeTime_passes_event_time", "OPM.C16.engine_tick_ops_pass_tick_time",
+            "OPM.C16.sites_expr_ok", "OPM.C16.engine_tick_assigns_before_use", "OPM.C16.interp_tick_assigns_first",
+            "OPM.C16.tick_time_handed_down", "OPM.C16.phase_env_fresh", "OPM.C16.interp_env_fresh",
+            "OPM.C16.site_time_is_tick_time", "OPM.C16.first_tick_stamp_is_tick_time"]
 CORPUS = Path(__file__).resolve().parent.parent / "corpus" / "C16"
 SKEW = 1.0 / 64
 
 
 def oracle(case: dict, res: dict, wall_classes: set[str]) -> tuple[list[Failure], int]:
-    """C16 over the report stream of one real run.  Returns (failures, tolerated wall-clock stamps)."""
+    """C16 over the report stream of one real run, two-sided: a reported time must be exactly the time of the tick
+    in which the tag's value was last set — not earlier (stale), not later (re-stamped while unchanged, or stamped
+    at report time), inside [engine start, current tick], never decreasing per tag.
+
+    "The tick in which the value was last set" is known exactly: the run is observed call by call (`res['mut']`:
+    every primitive call that changed a field of the tag, with its tick).  The only stamp without a change that is
+    accepted is the one the engine gives all system tags in its first tick ("provide first tick time as a default").
+    Returns (failures, tolerated wall-clock stamps in runs whose clock advances inside the tick)."""
     fails: list[Failure] = []
     keys: set[str] = set()
     tolerated = 0
@@ -60,23 +78,39 @@ def oracle(case: dict, res: dict, wall_classes: set[str]) -> tuple[list[Failure]
             keys.add(key)
             fails.append(Failure(key, case, detail))
 
-    start, ticks, hist, skew = res["start"], res["tick_times"], res["fields"], res["skew"]
+    start, ticks, skew = res["start"], res["tick_times"], res["skew"]
     grid = set(ticks) | {start}
+    system = set(res.get("system", []))
+    mut = res["mut"] or []
+    mp = 0
+    expect: dict[str, float] = {}          # tag -> time of the tick of its last change (start: construction)
+    changed_in: dict[str, int] = {}
     last_stamp: dict[str, float] = {}
     for ob in res["obs"]:
         k = ob["tick"]                       # report taken after tick k (-1: before the first tick)
         now = ticks[k] if k >= 0 else start
-        fields = hist[k + 1]
+        while mp < len(mut) and mut[mp][0] <= k:
+            tk, name, kind = mut[mp]
+            mp += 1
+            if kind in ("set", "sim"):
+                expect[name] = ticks[tk] if tk >= 0 else start
+                changed_in[name] = tk
+            elif kind == "stamp" and tk == 0 and name in system:
+                expect[name] = ticks[0]
+                changed_in[name] = 0
         for name, value, stamp, _sim in ob["entries"]:
             where = f"report after tick {k} (engine time {now}): {name!r} = {value!r} carries time {stamp}"
+            want = expect.get(name, start)
             wall_ok = any(c in wall_classes for c in res["classes"].get(name, []))
             if skew and stamp not in grid and (stamp - skew) in grid and stamp - skew <= now:
                 # a wall clock read inside a tick (only in the runs whose clock advances inside the tick)
-                if wall_ok:
+                if wall_ok and stamp - skew == want:
                     tolerated += 1
-                else:
+                elif not wall_ok:
                     fail(f"wall-clock-stamp:{name}", where + " = wall clock inside the tick, not the tick's time")
-                stamp_for_order = stamp
+                else:
+                    fail(f"stale-time:{name}" if stamp - skew < want else f"time-later-than-change:{name}",
+                         where + f", the value was last set at engine time {want}")
             else:
                 if stamp < start:
                     fail(f"time-before-engine-start:{name}", where + f", engine started at {start}")
@@ -84,17 +118,16 @@ def oracle(case: dict, res: dict, wall_classes: set[str]) -> tuple[list[Failure]
                     fail(f"time-after-current-tick:{name}", where)
                 elif stamp not in grid:
                     fail(f"time-not-a-tick-time:{name}", where + ", which is not the time of any tick")
-                stamp_for_order = stamp
-            if name in last_stamp and stamp_for_order < last_stamp[name]:
+                if stamp < want:
+                    fail(f"stale-time:{name}", where + f", but the value was set in tick {changed_in.get(name)} "
+                                                       f"(engine time {want})")
+                elif stamp > want and start <= stamp <= now:
+                    fail(f"time-later-than-change:{name}",
+                         where + f", but the value was last set in tick {changed_in.get(name, 'none (initial value)')} "
+                                 f"(engine time {want}) and has not changed since")
+            if name in last_stamp and stamp < last_stamp[name]:
                 fail(f"time-decreased:{name}", where + f", earlier report showed {last_stamp[name]}")
-            last_stamp[name] = stamp_for_order
-            # the tick in which the shown value was set: last tick whose end-of-tick field differs from the one before
-            f_idx = 1 if fields[name][2] else 0          # simulated -> simulated_value, else value
-            j = k
-            while j >= 0 and not (hist[j + 1][name][f_idx] != hist[j][name][f_idx]):
-                j -= 1
-            if j >= 0 and stamp < ticks[j]:
-                fail(f"stale-time:{name}", where + f", but the value was set in tick {j} (engine time {ticks[j]})")
+            last_stamp[name] = stamp
     return fails, tolerated
 
 
@@ -126,7 +159,8 @@ def run(ctx: Check) -> int:
     # ---- recorded engine traces: correspondence incl. time stamps, and the oracle on the same runs
     cases = corpus_cases()
     n_corpus = len(cases)
-    cases += [tagrep.gen_case(rng, malformed=(i % 6 == 5)) for i in range(ctx.n(45, 1200))]
+    cases += [tagrep.gen_case(rng, malformed=(i % 6 == 5)) for i in range(ctx.n(40, 1200))]
+    cases += [tagrep.gen_lock_case(rng) for _ in range(ctx.n(6, 150))]      # blocks that wait for the block lock
     results: dict[int, dict] = {}
 
     def traced(c):
@@ -136,11 +170,12 @@ def run(ctx: Check) -> int:
                 results[k] = with_timeout(60, lambda: tagrep.run_case(c, record=True))
             except ImplTimeout:
                 results[k] = {"lines": ["collect\t0\t0"], "answers": ["TIMEOUT: engine run exceeded 60 s"], "obs": [],
-                              "fields": [], "tick_times": [], "start": 0.0, "raised": [], "skew": 0.0, "classes": {}}
+                              "fields": [], "tick_times": [], "start": 0.0, "raised": [], "skew": 0.0, "classes": {},
+                              "mut": [], "system": []}
         return results[k]
 
     def interesting(c, o):
-        kinds = {ln.split("\t")[0] for ln in traced(c)["lines"]}
+        kinds = {f[3] if f[0] == "sat" else f[0] for f in (ln.split("\t") for ln in traced(c)["lines"])}
         return bool(kinds & {"sim", "simoff"}) or any("Block:" in ln for ln in c["pcode"].split("\n"))
 
     _, mout = ctx.correspond("engine-trace", "Tags", cases, lambda c: traced(c)["lines"],
@@ -148,23 +183,18 @@ def run(ctx: Check) -> int:
     block_idx = "2"   # position of the Block tag in Engine._iter_all_tags()
 
     def mutant(c):
-        """the pre-repair call sites: Block and simulate_value stamped with the tick number"""
-        out, tick_no = [], -1
-        for ln in traced(c)["lines"]:
-            f = ln.split("\t")
-            if f[0] == "notify":
-                tick_no += 1
-            if (f[0] == "set" and f[1] == block_idx) or f[0] == "sim":
-                f[3] = str((tick_no + 1) * 1024)
-            out.append("\t".join(f))
-        return out
+        """a model that never runs tick_iterate_subticks' assignment: the interpreter's sites see last tick's field"""
+        return [ln for ln in traced(c)["lines"] if ln != "phase\tself.interpreter.tick"]
     if mout:
         ctx.selftest("engine-trace", "Tags", cases, mutant, mout)
     for c in cases:
         r = traced(c)
         for ln in r["lines"]:
             f = ln.split("\t")
-            ctx.count("trace:" + f[0] + (":Block" if f[0] == "set" and f[1] == block_idx else ""))
+            ctx.count("trace:" + f[0] + (":" + f[1] if f[0] == "phase" else "") +
+                      (":Block" if f[0] == "sat" and f[4] == block_idx else ""))
+            if f[0] == "sat":
+                ctx.count("site:" + f[1].split("/")[-1] + ":" + f[2])
         ctx.count("runs:malformed" if c.get("malformed") else "runs:wellformed")
         ctx.count("reports", len(r["obs"]))
         ctx.count("reported-entries", sum(len(o["entries"]) for o in r["obs"]))
@@ -190,9 +220,11 @@ def run(ctx: Check) -> int:
     more = [(tagrep.gen_case(rng, malformed=(i % 6 == 5)), SKEW if i % 4 == 3 else 0.0) for i in range(ctx.n(60, 3000))]
     more += [(tagrep.gen_gap_case(rng), 0.0) for _ in range(ctx.n(10, 300))]    # reports after gaps of 1..300 ticks
 
+    more += [(tagrep.gen_lock_case(rng), 0.0) for _ in range(ctx.n(10, 300))]
+
     def watch(cs):
         c, skew = cs
-        fs, tol = oracle(c, tagrep.run_case(c, skew=skew), wall)
+        fs, tol = oracle(c, tagrep.run_case(c, skew=skew, observe=True), wall)
         tolerated[0] += tol
         ctx.count("oracle-runs:skewed-clock" if skew else "oracle-runs:grid-clock")
         return fs
@@ -200,13 +232,16 @@ def run(ctx: Check) -> int:
     ctx.extra["wall_clock_stamps_seen_in_skewed_runs"] = tolerated[0]
     ctx.extra["wall_clock_classes"] = sorted(wall)
     ctx.rule = ("engine-trace: grammar-generated methods (blocks, End block(s), watches, alarms, macros, waits, marks, "
-                "run counter, base, commands, Simulate / Simulate off incl. failing ones, 1 in 6 malformed) x 40-tick "
-                "schedules (dt 1/8-1/2 s) with register plans (condition tags, totalizer -> accumulators), user commands "
-                "(Pause/Unpause/Hold/Unhold/Stop/Start/Restart), reports after 1-5 ticks (12 % snapshots); every "
-                "primitive call is recorded with the time actually passed and replayed on the model; non-trivial = a "
-                "simulation or a block occurs. tag-ops: random operation sequences on the real objects with 20 % "
-                "adversarial time arguments. Oracle runs: same generator, every 4th with a wall clock that advances "
-                f"1/64 s inside each tick. {n_corpus} corpus cases run first.")
+                "run counter, base, commands, output commands, timed Pause/Hold, Simulate / Simulate off incl. failing "
+                "ones, 1 in 6 malformed) x 40-tick schedules (dt 1/8-1/2 s) with register plans (condition tags, "
+                "totalizer -> accumulators), user commands (Pause/Unpause/Hold/Unhold/Stop/Start/Restart), reports "
+                "after 1-5 ticks (12 % snapshots); plus block-lock contention methods (a Block inside a Watch/Alarm "
+                "that has to wait for the lock). Every Engine.tick start, phase, primitive call (with call site) and "
+                "direct stamp is recorded; the model gets tick start, phases and sites but NOT the time arguments and "
+                "answers with the time it derives; non-trivial = a simulation or a block occurs. tag-ops: random "
+                "operation sequences on the real objects with 20 % adversarial time arguments. Oracle runs: same "
+                "generators observed call by call, every 4th with a wall clock that advances 1/64 s inside each tick; "
+                f"long-gap runs (reports after 1-300 ticks). {n_corpus} corpus cases run first.")
     ctx.exhaustive = False
     ctx.assumptions = ["a wall clock read inside a tick equals the tick time (virtual clock; pinned wall-clock sites)",
                        "tick times handed to Engine.tick do not decrease",
@@ -221,7 +256,7 @@ def search(ctx: Check, wall: set[str]) -> None:
     pool = corpus_cases() + [tagrep.gen_case(rng, malformed=(i % 5 == 4)) for i in range(ctx.n(150, 1500))]
     jobs = [(c, skew) for i, c in enumerate(pool) for skew in ((0.0, SKEW) if i % 2 == 0 else (0.0,))]
     for k in range(0, len(jobs), 25):
-        ctx.monitor(jobs[k:k + 25], lambda cs: oracle(cs[0], tagrep.run_case(cs[0], skew=cs[1]), wall)[0],
+        ctx.monitor(jobs[k:k + 25], lambda cs: oracle(cs[0], tagrep.run_case(cs[0], skew=cs[1], observe=True), wall)[0],
                     impl_timeout=60, timeout_key="engine-run-timeout")
         if ctx.failures:
             return
@@ -237,7 +272,7 @@ def replay(obj) -> int:
         print(c["pcode"])
         rc = 0
         for skew in (0.0, SKEW):
-            r = tagrep.run_case(c, skew=skew)
+            r = tagrep.run_case(c, skew=skew, observe=True)
             if not skew:
                 for ob in r["obs"]:
                     print(f"report after tick {ob['tick']} ({ob['kind']}):",
